@@ -7,7 +7,8 @@ import ScryerModel.Model.Codec
      b64enc <id> <pad 0|1> <url 0|1> <bytes>            -> ok <code points>
      b64dec <id> <pad 0|1> <url 0|1> <code points>      -> ok <bytes> | none
      u8enc  <id> <code points>                          -> ok <bytes> (spec) ; mech must agree, else `mismatch`
-     u8dec  <id> <bytes>                                -> spec=<ok … | none> mech=<ok … | repr | fail>
+     u8dec  <id> <bytes>                                -> spec=<ok … | none> mech=<ok … | repr | fail> mechfix=<…>
+        (mech: charsio.pl at HEAD; mechfix: with the patch of notes/findings/C37-1.md)
 -/
 open Scryer.Drv Scryer.Codec
 
@@ -32,11 +33,11 @@ def u8decLine (bs : List Nat) : String :=
   let spec := match utf8Decode bs with
     | some cs => okNats cs
     | none => "none"
-  let mech := match utf8DecodeMech bs with
+  let mech (fix : Bool) := match utf8DecodeMech fix bs with
     | .ok cs => okNats cs
     | .reprErr => "repr"
     | .fail => "fail"
-  s!"spec={spec} mech={mech}"
+  s!"spec={spec} mech={mech false} mechfix={mech true}"
 
 def handle : List String → String
   | ["hexenc", _, a] | ["hexenc", _, a, _] =>
